@@ -106,6 +106,19 @@ PROPS["C06"] = {
 }
 
 
+PROPS["C16"] = {
+    "level": "proof",
+    "contracts": [
+        ("contracts.codetype", "xdis.codetype:codeType2Portable"),
+        ("contracts.codetype", "xdis.codetype.code38:Code38.to_native"),
+        ("contracts.codetype", "xdis.codetype.code310:Code310.to_native"),
+        ("contracts.codetype", "xdis.codetype.code311:Code311.to_native"),
+        ("contracts.codetype", "xdis.codetype.code13:Code13.replace"),
+    ],
+    "assumptions": ["host model: attribute set and positional constructor order of types.CodeType for 3.8 - 3.13 from spec/ref/hosts.json (extracted from and validated against the installed interpreters); field values are abstract tokens (identity + type)",
+                    "copy.deepcopy copies the record and shares immutable field values"],
+}
+
 # ---------------------------------------------------------------------------------------------
 # level texts / notes (MANIFEST)
 _T = {
@@ -127,6 +140,8 @@ _T = {
          "closed forms of CPython's C function selected from a template family by agreement with the interpreters on sampled operands; versions without an interpreter are not covered."),
  "C17": ("_parse_varint and parse_exception_table are proved for all byte strings against the exception-table format (big-endian 6-bit varints, 4 per entry), including termination and StopIteration exactly on truncated input.",
          "location-table (co_positions/co_lines) walkers: bounded differential only so far."),
+ "C16": ("codeType2Portable, Code38/Code310/Code311.to_native and Code13.replace are proved, for each host 3.8-3.13 (attribute set and positional constructor order of types.CodeType taken from the real interpreters), to map every field to the same field (in particular the host's real line table and exception table), to choose the portable class of the host's version, and to leave the original object unchanged.",
+         "field values are abstract tokens (identity + type): a plumbing proof; types.CodeType is an external constructor modelled by its positional order; a frame condition (no attribute added to the portable object) is part of the contract."),
 }
 for _k, (_a, _b) in _T.items():
     if _k in PROPS:
